@@ -22,6 +22,9 @@ CONSTANTS Cap, Ids, ConnsC, IdOf,    \* IdOf: [ConnsC -> Ids], the client id a c
           LateRegister,             \* FALSE: the code - the decisive check and the registration are one critical section and the CONNACK is
                                     \* written afterwards; TRUE: check under the lock, CONNACK written outside it (for as long as the client
                                     \* takes to read it), registration only then (lead generation: must be refuted)
+          RemoveKeyed,              \* FALSE: the code - removal checks that the registered connection is the one that ended; TRUE: the entry
+                                    \* of the client id is deleted whoever holds it (lead generation: must be refuted - after a takeover the
+                                    \* successor's slot is forgotten while it stays connected: `conn` counts the connected clients)
           StaleTakeover             \* FALSE: the code - Register looks the id up again under the lock; TRUE: "this is a takeover" is
                                     \* decided in CheckEarly (which then skips the cap check) and believed by Register although the
                                     \* Connect pipeline runs in between (lead generation: must be refuted)
@@ -66,7 +69,10 @@ CheckEarly(c) ==
 Register(c) ==
     /\ st[c] = "early" /\ ~LateRegister
     /\ IF IdOf[c] \in DOMAIN held \/ N < Cap
-       THEN Accept(c) /\ st' = [st EXCEPT ![c] = "up"]
+       THEN /\ Accept(c)
+            \* a takeover ends the superseded connection (go oldClient.close()): its teardown will come to Remove
+            /\ st' = [x \in ConnsC |-> IF x = c THEN "up"
+                                       ELSE IF IdOf[c] \in DOMAIN held /\ x = held[IdOf[c]] /\ st[x] = "up" THEN "ending" ELSE st[x]]
        ELSE Refuse(c) /\ st' = [st EXCEPT ![c] = "refused"]
 (* (LateRegister only) the check alone, then - after the CONNACK has been written - the registration *)
 CheckLocked(c) ==
@@ -82,18 +88,27 @@ RegisterStale(c) ==    \* (StaleTakeover only) registered as the takeover it was
     /\ st[c] = "earlyT" /\ st' = [st EXCEPT ![c] = "up"]
     /\ held' = With(held, IdOf[c], c)
     /\ obs' = [a |-> "accept", c |-> c, n |-> N, takeover |-> IdOf[c] \in DOMAIN held]
-EndConn(c) ==          \* the client (or the network) ends the connection
+EndConn(c) ==          \* the client (or the network) ends the connection - also one whose CONNACK has not been written yet (the
+                       \* write then fails): the connection is registered from Register on, and whatever handleConn does about
+                       \* the failed write must come to Remove, which gives back the slot only if c still has it
     /\ st[c] = "up" /\ st' = [st EXCEPT ![c] = "ending"]
     /\ UNCHANGED held /\ obs' = [a |-> "end", c |-> c, n |-> N]
+RemoveById(c) ==       \* (RemoveKeyed only) clean-up keyed by the client id: deletes whatever connection is registered under c's id
+    /\ RemoveKeyed /\ st[c] = "ending" /\ st' = [st EXCEPT ![c] = "gone"]
+    /\ held' = IF IdOf[c] \in DOMAIN held THEN Without(held, IdOf[c]) ELSE held
+    /\ obs' = [a |-> "release", c |-> c, n |-> N]
 Remove(c) ==           \* removeClient at the end of the teardown
-    /\ st[c] = "ending" /\ st' = [st EXCEPT ![c] = "gone"]
+    /\ ~RemoveKeyed /\ st[c] = "ending" /\ st' = [st EXCEPT ![c] = "gone"]
     /\ Release(c)
 
-CNext == \E c \in ConnsC : CheckEarly(c) \/ Register(c) \/ CheckLocked(c) \/ RegisterLate(c) \/ RegisterStale(c) \/ EndConn(c) \/ Remove(c)
+CNext == \E c \in ConnsC : CheckEarly(c) \/ Register(c) \/ CheckLocked(c) \/ RegisterLate(c) \/ RegisterStale(c) \/ EndConn(c) \/ Remove(c) \/ RemoveById(c)
 CSpec == CInit /\ [][CNext]_cvars
 
 (* ---- the property ---- *)
 CapHolds == N <= Cap                                              \* at every instant
+(* the connected clients: accepted, not ended, and not superseded by a later accepted connection of the same id - every one of   *)
+(* them occupies a slot (so that N, which the checks read, counts them all and CapHolds bounds them)                              *)
+ConnectedWithinCap == Cardinality({c \in ConnsC : st[c] = "up"}) <= Cap
 NoAcceptAboveCap == [][obs'.a = "accept" => (obs'.takeover \/ obs'.n < Cap)]_cvars
 RefusedOnlyAtCap == [][obs'.a = "refuse" => obs'.n >= Cap]_cvars
 TakeoverKeepsCount == [][(obs'.a = "accept" /\ obs'.takeover) => Cardinality(DOMAIN held') = Cardinality(DOMAIN held)]_cvars
